@@ -5,21 +5,48 @@ import AslModel.Retry
 namespace Asl.Drv.Crash
 open Asl Asl.Drv Asl.Crash
 
+def natOf? : Json → Option Nat
+  | .num n => if n < 0 then none else some n.toNat
+  | _ => none
+
 mutual
-/-- a skeleton: a JSON array of "T" (Task), "X" (a Task whose reply fails the execution), "S" (a visit handled
-in one go), "W" (a visit that goes on from a timer) and {"par": [skeleton, …], "mc": n} -/
+/-- a skeleton: a JSON array of "T" (Task; {"T": rc}: the event of a retry), "S" (a visit handled in one go), "W" (a visit
+that goes on from a timer), {"par": [skeleton, …], "mc": n}, {"child": skeleton, "rc": n, "then": …} (a synchronous child
+execution), "?" (a path the crash-free run did not take) and, as the last item, {"fail": null | level, "cont": skeleton}
+(the visit before fails; "X" = "T" followed by {"fail": null}) -/
 def skOf : Nat → List Json → Option Sk
   | 0, _ => none
   | _ + 1, [] => some .done
   | fuel + 1, x :: rest =>
     match x with
     | .str s =>
-      if s = S "T" then (skOf fuel rest).map .task
-      else if s = S "X" then some .taskFail
+      if s = S "T" then (skOf fuel rest).map (.task 0)
+      else if s = S "X" then some (.task 0 (.fail none .done))
       else if s = S "S" then (skOf fuel rest).map .step
       else if s = S "W" then (skOf fuel rest).map .wait
+      else if s = S "?" then some .opaque
       else none
     | .obj kvs =>
+      match objGet kvs (S "T") with
+      | some n => (match natOf? n with
+        | some rc => (skOf fuel rest).map (.task rc)
+        | none => none)
+      | none =>
+      match objGet kvs (S "fail") with
+      | some lv =>
+        let cont := match objGet kvs (S "cont") with
+          | some (.arr xs) => skOf fuel xs
+          | _ => some .done
+        cont.map (fun k => .fail (natOf? lv) k)
+      | none =>
+      match objGet kvs (S "child") with
+      | some (.arr xs) =>
+        let rc := match objGet kvs (S "rc") with | some (.num n) => n.toNat | _ => 0
+        (match skOf fuel xs, skOf fuel rest with
+         | some sub, some r => some (.child rc sub r)
+         | _, _ => none)
+      | some _ => none
+      | none =>
       match objGet kvs (S "par"), skOf fuel rest with
       | some (.arr bs), some r =>
         let mc := match objGet kvs (S "mc") with | some (.num n) => n.toNat | _ => 0
@@ -37,10 +64,6 @@ def brOf : Nat → List Json → Option Br
       | _, _ => none
     | _ => none
 end
-
-def natOf? : Json → Option Nat
-  | .num n => if n < 0 then none else some n.toNat
-  | _ => none
 
 /-- ["ev" | "tm" | "rp", id, cut?] / ["tick", null, cut?] / ["crash"] -/
 def opOf : Json → Option (Op × Option Nat)
@@ -60,7 +83,8 @@ def opOf : Json → Option (Op × Option Nat)
 
 def quirksOf (s : String) : Quirks :=
   let has (x : String) : Bool := (s.splitOn ",").contains x
-  { requestFromTimer := has "F1", replyAckedBeforeJoin := has "F2", nestedJoinAcksEarly := has "F4" }
+  { requestFromTimer := has "F1", replyAckedBeforeJoin := has "F2", nestedJoinAcksEarly := has "F4",
+    batchRelaunched := has "F7", childAnswerInProcess := has "F8", attemptFailureForgotten := has "F9" }
 
 def nats (xs : List Nat) : Json := .arr (xs.map (fun n => Json.num (Int.ofNat n)))
 
@@ -72,7 +96,59 @@ def runTo (q : Quirks) : Cfg → Sched → Nat → Cfg × Option Nat
     | some c' => runTo q c' rest (i + 1)
     | none => (c, some i)
 
+/-- a configuration in short (for `trace`) -/
+def cfgJson (c : Cfg) : Json :=
+  .obj [(S "ev", .arr (c.evq.map (fun m => Json.str (S (toString m.id ++ (if m.unacked then "u" else "") ++ (if m.redelivered then "r" else "")))))),
+        (S "rp", .arr (c.rpq.map (fun r => Json.str (S (toString r.corr ++ (if r.unacked then "u" else "") ++ (if r.redelivered then "r" else "")))))),
+        (S "tm", nats c.timers), (S "pend", nats c.pending), (S "orph", nats c.orphans), (S "sent", nats c.sent),
+        (S "joins", .arr (c.joins.map (fun j => Json.str (S (toString j.jid ++ (if j.dead then "†" else "") ++ ":" ++ toString j.filled ++ "/" ++ toString (j.heldEv.map (·.2))))))),
+        (S "notes", .num (Int.ofNat c.notes)), (S "failed", .num (Int.ofNat c.failed)), (S "div", .bool c.diverged)]
+
+/-- the configurations after every operation, as far as the schedule is enabled -/
+def traceTo (q : Quirks) : Cfg → Sched → List Json
+  | _, [] => []
+  | c, (op, cut) :: rest =>
+    match step q c op cut with
+    | some c' => cfgJson c' :: traceTo q c' rest
+    | none => [.str (S "not enabled")]
+
+/-- run the schedule, leaving out the operations that are not enabled: (configuration, how many were left out) -/
+def runSkipping (q : Quirks) : Cfg → Sched → Nat → Cfg × Nat
+  | c, [], n => (c, n)
+  | c, (op, cut) :: rest, n =>
+    match step q c op cut with
+    | some c' => runSkipping q c' rest n
+    | none => runSkipping q c rest (n + 1)
+
+def answer (q : Quirks) (c : Cfg) (skipped : Nat) : String :=
+  let c' := drain q 4000 c
+  let o := observe c'
+  "ok\t" ++ js (.obj [(S "sync", .bool true), (S "terminal", .bool o.terminal), (S "notes", .num (Int.ofNat o.notes)),
+    (S "resent", nats o.resent), (S "pendingUnsent", nats o.pendingUnsent), (S "pendingLost", nats o.pendingLost),
+    (S "quiet", .bool o.quiet), (S "requests", .num (Int.ofNat c'.sent.length)),
+    (S "diverged", .bool c'.diverged), (S "failed", .bool (c'.failed > 0)), (S "skipped", .num (Int.ofNat skipped)),
+    (S "heldEvents", nats ((c'.evq.filter (·.unacked)).map (·.id))),
+    (S "joins", .num (Int.ofNat c'.joins.length))])
+
 def handle : List String → String
+  | ["runl", quirks, skeleton, schedule] =>
+    -- what the protocol with these switches does under (as much as it has of) this schedule
+    match rd skeleton, rd schedule with
+    | some (.arr items), some (.arr ops) =>
+      match skOf 400 items, ops.mapM opOf with
+      | some sk, some sched =>
+        let q := quirksOf quirks
+        let r := runSkipping q (init sk) sched 0
+        answer q r.1 r.2
+      | _, _ => "unsupported"
+    | _, _ => "unsupported"
+  | ["trace", quirks, skeleton, schedule] =>
+    match rd skeleton, rd schedule with
+    | some (.arr items), some (.arr ops) =>
+      match skOf 400 items, ops.mapM opOf with
+      | some sk, some sched => "ok\t" ++ js (.arr (traceTo (quirksOf quirks) (init sk) sched))
+      | _, _ => "unsupported"
+    | _, _ => "unsupported"
   | ["run", quirks, skeleton, schedule] =>
     match rd skeleton, rd schedule with
     | some (.arr items), some (.arr ops) =>
@@ -81,14 +157,7 @@ def handle : List String → String
         let q := quirksOf quirks
         match runTo q (init sk) sched 0 with
         | (_, some i) => "ok\t" ++ js (.obj [(S "sync", .bool false), (S "at", .num (Int.ofNat i))])
-        | (c, none) =>
-          let c' := drain q 4000 c
-          let o := observe c'
-          "ok\t" ++ js (.obj [(S "sync", .bool true), (S "terminal", .bool o.terminal), (S "notes", .num (Int.ofNat o.notes)),
-            (S "resent", nats o.resent), (S "pendingUnsent", nats o.pendingUnsent), (S "pendingLost", nats o.pendingLost),
-            (S "quiet", .bool o.quiet), (S "requests", .num (Int.ofNat c'.sent.length)),
-            (S "heldEvents", nats ((c'.evq.filter (·.unacked)).map (·.id))),
-            (S "joins", .num (Int.ofNat c'.joins.length))])
+        | (c, none) => answer q c 0
       | _, _ => "unsupported"
     | _, _ => "unsupported"
   | _ => "bad-op"
